@@ -33,6 +33,7 @@ func init() {
 	zzverif.Register("VerifC13TwoDocsLong", VerifC13TwoDocsLong)
 	zzverif.Register("VerifC13Workspace", VerifC13Workspace)
 	zzverif.Register("VerifC13Interleave", VerifC13Interleave)
+	zzverif.Register("VerifC13Empty", VerifC13Empty)
 	zzverif.Register("VerifC13InterleaveLong", VerifC13InterleaveLong)
 }
 
@@ -45,6 +46,9 @@ func VerifC13Workspace()   { c13Burst(2, 3, 1, true, 3, false) }
 // notifications interleaved with analyses and deliveries
 func VerifC13Interleave()     { c13Burst(2, 3, 1, false, 2, true) }
 func VerifC13InterleaveLong() { c13Burst(2, 4, 1, false, 2, true) }
+
+// the latest text may be empty (select all, delete)
+func VerifC13Empty() { c13Burst(2, 3, 1, false, 4, false) }
 
 type c13Task struct {
 	uri     protocol.DocumentURI
@@ -59,6 +63,9 @@ type c13Client struct {
 	zzClient
 	s        *Server
 	deferred []*protocol.PublishDiagnosticsParams
+	// during: what else happens while an ordered publication is on the wire (the server is
+	// inside the client call and holds its publish lock): set by the schedule
+	during func()
 }
 
 func (c *c13Client) PublishDiagnostics(_ context.Context, p *protocol.PublishDiagnosticsParams) error {
@@ -69,6 +76,9 @@ func (c *c13Client) PublishDiagnostics(_ context.Context, p *protocol.PublishDia
 		return nil
 	}
 	c.published = append(c.published, p)
+	if c.during != nil {
+		c.during()
+	}
 	return nil
 }
 
@@ -142,6 +152,8 @@ func c13Text(name string, shapes int) string {
 	d := zzverif.Digits(name+".d", 1)
 	p := zzverif.Text(name+".p", "abcXYZ", 1)
 	switch zzverif.Choice(name+".shape", shapes) {
+	case 3: // everything selected and deleted
+		return ""
 	case 0:
 		return "2024-01-15 " + p + "\n    a:b  " + d + " USD\n    c:d  -1 USD\n"
 	case 1:
@@ -260,6 +272,37 @@ func c13Burst(minN, maxN, ndocs int, ws bool, shapes int, interleave bool) {
 		for ; next < len(notes); next++ {
 			w.send(uris, notes[next])
 			latest[notes[next].doc] = notes[next].text
+		}
+	}
+	if interleave {
+		// while an ordered publication is inside the client call, the next notification may
+		// arrive and pending analyses may run (nested; an analysis that would have to wait for
+		// the publish lock cannot be run this way: the engine cuts that path)
+		calls := 0
+		w.cl.during = func() {
+			calls++
+			for act := 0; act < 2; act++ { // e.g. the next change arrives and its analysis starts
+				nm := "during." + zzverif.Itoa(calls) + "." + zzverif.Itoa(act)
+				nn := 0
+				if next < len(notes) {
+					nn = 1
+				}
+				total := 1 + nn + w.npending()
+				if total == 1 {
+					return
+				}
+				k := zzverif.Choice(nm, total)
+				switch {
+				case k == 0:
+					return
+				case k <= nn:
+					w.send(uris, notes[next])
+					latest[notes[next].doc] = notes[next].text
+					next++
+				default:
+					w.run(k - 1 - nn)
+				}
+			}
 		}
 	}
 	for step := 0; ; step++ {
